@@ -102,6 +102,8 @@ EXPECTED_PROBES = [
     "probe.boundary_exact.state_checked", "probe.boundary_exact.job_due_at_window_end",
     "probe.boundary_exact.job_dropped_at_window_start", "probe.boundary_exact.probe_delivered_sent_at_heal_instant",
     "probe.boundary_exact.probe_dropped_sent_at_partition_start", "probe.same_names.latency_windows_overlap_across_links",
+    "probe.net_built_with_add_bidirectional_link", "probe.net_built_with_condition_factories",
+    "probe.bidir.latency_windows_overlap_on_both_directions", "probe.bidir.loss_windows_overlap_on_both_directions",
     "probe.target_matches_twin_outside_windows",
     "probe.bystanders_equal_fault_free_run",
     # reachable since the fixes of checks/c06.fixed.json were committed
@@ -221,13 +223,29 @@ def gen(rng, tier):
     net = None
     if rng.random() < 0.75:
         nn = rng.choice((2, 3, 3))
+        bidir = rng.random() < 0.45      # built with Network.add_bidirectional_link (reverse = shallow copy)
+
+        def params():
+            d = {"base_us": rng.choice((500, 2000, 10_000, 40_000, 80_000)), "loss": 0.25 if rng.random() < 0.08 else 0.0}
+            if rng.random() < 0.4:       # the Network module's condition factories
+                if d["loss"] > 0:
+                    d["factory"] = "lossy"
+                else:
+                    d["factory"] = rng.choice(("datacenter", "local", "slow"))
+                    d["base_us"] = {"datacenter": 600, "local": 100}.get(d["factory"], d["base_us"])
+            return d
+
         links = []
         for a in range(nn):
             for b in range(nn):
-                if a != b and (rng.random() < 0.9 or not links):
-                    links.append({"a": a, "b": b, "base_us": rng.choice((500, 2000, 10_000, 40_000, 80_000)),
-                                  "loss": 0.25 if rng.random() < 0.08 else 0.0})
-        net = {"n": nn, "delta_us": max(50_000, end_us // rng.choice((15, 20, 30))),
+                if a == b or (bidir and a > b):
+                    continue
+                if rng.random() < 0.9 or not links:
+                    p = params()
+                    links.append({"a": a, "b": b, **p})
+                    if bidir:
+                        links.append({"a": b, "b": a, **p})
+        net = {"n": nn, "bidir": bidir, "delta_us": max(50_000, end_us // rng.choice((15, 20, 30))),
                "phase_us": rng.randrange(1, 50_000), "links": links}
     sc["net"] = net
 
@@ -252,9 +270,11 @@ def gen(rng, tier):
         elif only in ("capbusy", "capoverlap") and rng.random() < 0.6:
             k = "capacity"
         pair = None
-        if sc["same_names"] and faults and faults[-1]["kind"] in ("latency", "loss") and len(net["links"]) > 1 \
-                and rng.random() < 0.6:
-            pair = faults[-1]            # same kind on a *different* (namesake) link, overlapping window
+        if faults and faults[-1]["kind"] in ("latency", "loss") and len(net["links"]) > 1 \
+                and (sc["same_names"] or net["bidir"]) and rng.random() < 0.6:
+            # same kind on a *different* link with an overlapping window: a namesake link, or the reverse
+            # direction of the same pair (links must not share fault state)
+            pair = faults[-1]
             k = pair["kind"]
         f = {"kind": k}
         allow_overlap = k != "capacity" or "capoverlap" in allow
@@ -281,7 +301,11 @@ def gen(rng, tier):
         else:
             l = rng.choice(net["links"])
             if pair is not None:
-                l = rng.choice([x for x in net["links"] if [x["a"], x["b"]] != pair["link"]])
+                rev = [x for x in net["links"] if [x["b"], x["a"]] == pair["link"]]
+                if rev and (net["bidir"] or not sc["same_names"]) and rng.random() < 0.7:
+                    l = rev[0]
+                else:
+                    l = rng.choice([x for x in net["links"] if [x["a"], x["b"]] != pair["link"]])
             elif allow_overlap and faults and rng.random() < 0.6:
                 same = [x for x in faults if x["kind"] == k]
                 if same:
@@ -417,6 +441,22 @@ def _same_name_probes(w: FaultWorld, c: dict) -> None:
                       else "probe.same_names.loss_windows_overlap_across_links"] = 1
 
 
+def _bidir_probes(w: FaultWorld, c: dict) -> None:
+    net = w.sc.get("net")
+    if not net:
+        return
+    if any(l.get("factory") for l in net["links"]):
+        c["probe.net_built_with_condition_factories"] = 1
+    if not net.get("bidir"):
+        return
+    c["probe.net_built_with_add_bidirectional_link"] = 1
+    for kind in ("lat", "loss"):
+        for k1 in [k for k in w.tl.w if k[0] == kind]:
+            k2 = (kind, k1[1], k1[3], k1[2])
+            if k1[2] < k1[3] and k2 in w.tl.w and any(a[0] < b[1] and b[0] < a[1] for a in w.tl.w[k1] for b in w.tl.w[k2]):
+                c[f"probe.bidir.{'latency' if kind == 'lat' else 'loss'}_windows_overlap_on_both_directions"] = 1
+
+
 def _restore_probes(w: FaultWorld, c: dict) -> None:
     for key, ws in w.tl.w.items():
         if key[0] != "cap":
@@ -484,6 +524,7 @@ def run(sc):
     _static_probes(w, counters)
     _restore_probes(w, counters)
     _same_name_probes(w, counters)
+    _bidir_probes(w, counters)
     if status == "ok" and sig is None and any(f.get("cancel") == "pre" for f in sc["faults"]):
         counters["probe.cancel_before_construction_left_no_trace"] = 1
     h = hashlib.blake2b(digest_size=12)
